@@ -421,6 +421,7 @@ type c30call struct {
 // c30DBCalls finds the database/sql calls of a function.
 func (c *Ctx) c30DBCalls(info *types.Info, fd *ast.FuncDecl) []c30call {
 	var out []c30call
+	defs := c29Defs(info, fd.Body)
 	for _, call := range calls(fd.Body, true) {
 		o := callee(info, call)
 		if o == nil || o.Pkg() == nil || o.Pkg().Path() != "database/sql" {
@@ -440,6 +441,14 @@ func (c *Ctx) c30DBCalls(info *types.Info, fd *ast.FuncDecl) []c30call {
 		}
 		dc := c30call{fd: fd, call: call, method: o.Name(), query: call.Args[q], binds: call.Args[q+1:]}
 		qe := unparen(dc.query)
+		// query := fmt.Sprintf(…); db.Query(query, …)
+		for i := 0; i < 3; i++ {
+			d, ok := defs.single(info, qe)
+			if !ok || d.idx >= 0 {
+				break
+			}
+			qe = unparen(d.rhs)
+		}
 		if s, ok := constString(info, qe); ok {
 			dc.sql = s
 		} else if sp, ok := qe.(*ast.CallExpr); ok && callIs(info, sp, "fmt", "", "Sprintf") && len(sp.Args) >= 1 {
@@ -447,6 +456,9 @@ func (c *Ctx) c30DBCalls(info *types.Info, fd *ast.FuncDecl) []c30call {
 				dc.sql = s
 				dc.fmtArg = sp.Args[1:]
 			}
+		} else if be, ok := qe.(*ast.BinaryExpr); ok && be.Op == token.ADD {
+			// "… '" + namespace + "' …" is fmt.Sprintf("… '%s' …", namespace)
+			dc.sql, dc.fmtArg = c30Concat(info, be)
 		}
 		if dc.sql != "" {
 			dc.stmt = c30Parse(dc.sql)
@@ -805,6 +817,14 @@ func srcs(c *Ctx, es []ast.Expr) []string {
 // c30BindKind classifies an argument bound in cachedb.Write.
 func (c *Ctx) c30BindKind(info *types.Info, defs c29defs, fd *ast.FuncDecl, e ast.Expr) (string, string) {
 	e = unparen(e)
+	// jsonText := string(b) / expires := ttl.Unix(): follow plain single definitions
+	for i := 0; i < 3; i++ {
+		d, ok := defs.single(info, e)
+		if !ok || d.idx >= 0 {
+			break
+		}
+		e = unparen(d.rhs)
+	}
 	if idx := c30ParamIndex(info, fd, e); idx >= 0 {
 		if bt, ok := info.TypeOf(e).Underlying().(*types.Basic); ok && bt.Info()&types.IsString != 0 && !c30Reassigned(info, fd, idx) {
 			return "key", ""
@@ -839,7 +859,7 @@ func (c *Ctx) c30BindKind(info *types.Info, defs c29defs, fd *ast.FuncDecl, e as
 func (c *Ctx) c30TableFlow(info *types.Info, dc c30call, what string) int {
 	key := "cachedb." + what + ":table"
 	nVerb := strings.Count(dc.sql, "%") - 2*strings.Count(dc.sql, "%%")
-	if dc.stmt.table != "%s" || nVerb != 1 || len(dc.fmtArg) != 1 {
+	if (dc.stmt.table != "%s" && dc.stmt.table != "%v") || nVerb != 1 || len(dc.fmtArg) != 1 {
 		c.Viol("R30b", key, dc.call.Pos(), "statement %q of cachedb.%s does not take its table name from exactly one %%s operand (table %q, %d operands): values of all namespaces share a table or the statement fails", dc.sql, dc.fd.Name.Name, dc.stmt.table, len(dc.fmtArg))
 		return -1
 	}
@@ -882,12 +902,57 @@ func (c *Ctx) c30ReadResult(info *types.Info, fd *ast.FuncDecl, dc c30call) {
 		c.Viol("R30a", "Read:decode", fd.Pos(), "cachedb.Read does not decode the scanned value column into the caller's pointer parameter (Scan target -> json.Unmarshal -> parameter): the caller gets no or a different value")
 		return
 	}
+	// the variable holding Unmarshal's error (for `return err == nil`)
+	var umErr types.Object
+	ast.Inspect(fd.Body, func(nd ast.Node) bool {
+		if as, ok := nd.(*ast.AssignStmt); ok && len(as.Lhs) == 1 && len(as.Rhs) == 1 && unparen(as.Rhs[0]) == ast.Expr(um) {
+			if id, ok := as.Lhs[0].(*ast.Ident); ok && id.Name != "_" {
+				umErr = info.ObjectOf(id)
+			}
+		}
+		return true
+	})
+	isNilIdent := func(x ast.Expr) bool {
+		id, ok := unparen(x).(*ast.Ident)
+		if !ok {
+			return false
+		}
+		_, isNil := info.ObjectOf(id).(*types.Nil)
+		return isNil
+	}
 	// every `return true` comes after the Unmarshal and is not in its error arm
 	good, n := true, 0
 	walkStack(fd.Body, func(nd ast.Node, stack []ast.Node) bool {
 		rs, isRet := nd.(*ast.ReturnStmt)
 		if !isRet || len(rs.Results) != 1 {
 			return true
+		}
+		// `return err == nil` with err the (not reassigned) error of the Unmarshal: a hit iff decoded
+		if b, isB := unparen(rs.Results[0]).(*ast.BinaryExpr); isB && b.Op == token.EQL && umErr != nil && rs.Pos() > um.End() {
+			var other ast.Expr
+			switch {
+			case isNilIdent(b.Y):
+				other = b.X
+			case isNilIdent(b.X):
+				other = b.Y
+			}
+			if id, ok := unparen0(other).(*ast.Ident); ok && info.ObjectOf(id) == umErr {
+				clobbered := false
+				ast.Inspect(fd.Body, func(m ast.Node) bool {
+					if as, ok := m.(*ast.AssignStmt); ok && as.Pos() > um.End() && as.End() < rs.Pos() {
+						for _, l := range as.Lhs {
+							if lid, ok := l.(*ast.Ident); ok && info.ObjectOf(lid) == umErr {
+								clobbered = true
+							}
+						}
+					}
+					return true
+				})
+				if !clobbered {
+					n++
+					return true
+				}
+			}
 		}
 		if v, isC := constBool(info, rs.Results[0]); !isC || !v {
 			if !isC {
@@ -1133,10 +1198,23 @@ func (c *Ctx) c30TTLHelpers(cpk *packages.Package) {
 				add = call
 			}
 		}
+		defs := c29Defs(info, fd.Body)
+		// follow plain single-definition locals (now := time.Now(); d := n * time.Second)
+		resolve := func(e ast.Expr) ast.Expr {
+			e = unparen(e)
+			for i := 0; i < 3; i++ {
+				d, ok := defs.single(info, e)
+				if !ok || d.idx >= 0 {
+					break
+				}
+				e = unparen(d.rhs)
+			}
+			return e
+		}
 		okShape := false
 		if add != nil {
 			if se, ok := add.Fun.(*ast.SelectorExpr); ok {
-				if cl, ok := unparen(se.X).(*ast.CallExpr); ok && callIs(info, cl, "time", "", "Now") {
+				if cl, ok := resolve(se.X).(*ast.CallExpr); ok && callIs(info, cl, "time", "", "Now") {
 					okShape = true
 				}
 			}
@@ -1151,6 +1229,9 @@ func (c *Ctx) c30TTLHelpers(cpk *packages.Package) {
 		var walk func(e ast.Expr)
 		walk = func(e ast.Expr) {
 			e = unparen(e)
+			if c30ParamIndex(info, fd, stripConv(info, e)) < 0 {
+				e = resolve(e)
+			}
 			if v, ok := constInt(info, e); ok {
 				factor *= v
 				return
@@ -1500,10 +1581,12 @@ func (c *Ctx) c30NamespaceLookup(cpk *packages.Package) {
 			switch x := n.(type) {
 			case *ast.IfStmt:
 				if b, ok := unparen(x.Cond).(*ast.BinaryExpr); ok && b.Op == token.EQL && terminates(info, x.Body.List) {
-					if id, ok := unparen(b.X).(*ast.Ident); ok && id.Name == rv {
-						if nid, ok := unparen(b.Y).(*ast.Ident); ok {
-							if _, isNil := info.ObjectOf(nid).(*types.Nil); isNil && !nilCheck.IsValid() {
-								nilCheck = x.Pos()
+					for _, pr := range [][2]ast.Expr{{b.X, b.Y}, {b.Y, b.X}} { // ic == nil / nil == ic
+						if id, ok := unparen(pr[0]).(*ast.Ident); ok && id.Name == rv {
+							if nid, ok := unparen(pr[1]).(*ast.Ident); ok {
+								if _, isNil := info.ObjectOf(nid).(*types.Nil); isNil && !nilCheck.IsValid() {
+									nilCheck = x.Pos()
+								}
 							}
 						}
 					}
@@ -1590,9 +1673,19 @@ func (c *Ctx) c30NamespaceLookup(cpk *packages.Package) {
 									}
 								}
 							}
-						case *ast.BinaryExpr: // ic == nil
-							if id, ok := unparen(x.X).(*ast.Ident); ok && info.ObjectOf(id) == via && (x.Op == token.EQL) == f.True {
-								guards = true
+						case *ast.BinaryExpr: // ic == nil / nil == ic
+							if x.Op != token.EQL && x.Op != token.NEQ {
+								break
+							}
+							for _, pr := range [][2]ast.Expr{{x.X, x.Y}, {x.Y, x.X}} {
+								id, ok := unparen(pr[0]).(*ast.Ident)
+								nid, ok2 := unparen(pr[1]).(*ast.Ident)
+								if !ok || !ok2 || info.ObjectOf(id) != via {
+									continue
+								}
+								if _, isNil := info.ObjectOf(nid).(*types.Nil); isNil && (x.Op == token.EQL) == f.True {
+									guards = true
+								}
 							}
 						}
 					}
@@ -1633,4 +1726,43 @@ func (c *Ctx) c30NamespaceLookup(cpk *packages.Package) {
 		})
 	})
 	c.MinCount("R30e", "method calls on entries of the namespace map", n, 5)
+}
+
+// c30Concat renders a string concatenation as the equivalent Sprintf format:
+// constant operands verbatim, every other (string-typed) operand as %s.
+// Returns "" when a constant part contains a % (would be ambiguous) or an
+// operand is not a string.
+func c30Concat(info *types.Info, e ast.Expr) (string, []ast.Expr) {
+	var ops []ast.Expr
+	var flat func(x ast.Expr)
+	flat = func(x ast.Expr) {
+		x = unparen(x)
+		if _, isC := constString(info, x); !isC {
+			if b, ok := x.(*ast.BinaryExpr); ok && b.Op == token.ADD {
+				flat(b.X)
+				flat(b.Y)
+				return
+			}
+		}
+		ops = append(ops, x)
+	}
+	flat(e)
+	format := ""
+	var args []ast.Expr
+	for _, o := range ops {
+		if s, ok := constString(info, o); ok {
+			if strings.Contains(s, "%") {
+				return "", nil
+			}
+			format += s
+			continue
+		}
+		bt, ok := info.TypeOf(o).Underlying().(*types.Basic)
+		if !ok || bt.Info()&types.IsString == 0 {
+			return "", nil
+		}
+		format += "%s"
+		args = append(args, o)
+	}
+	return format, args
 }
